@@ -385,6 +385,23 @@ CLAIMED.update(
     }
 )
 
+CLAIMED.update(
+    {
+        "C30": (
+            "save/restore symmetry rules on the execution-path context managers (value provenance of every restoring write, condition set of restoring writes, finally / __exit__ coverage), dominance of the reseeding hook over statement execution, exclusion of Pynguin's own generator",
+            "Decides the structural clauses of 'process state is as before after every execution': in OutputSuppressionContext the value written back for file descriptors 0-2 and for the "
+            "logging threshold originates from a read made in __enter__, restoring writes are guarded only by the idempotence flag / `saved is not None` (never by what the executed code "
+            "left behind), __exit__ calls restore() unconditionally, the executor restores on its timeout path, statements run inside `with FilesystemIsolation(), output suppression, "
+            "tracer`, and the shared /dev/null sink is re-opened when a previous test case closed it; suppress_logging restores the previous threshold in a finally; _make_deterministic "
+            "reseeds with the configured seed, excludes randomness.RNG, is the first action of the before-hook, and that hook dominates every executed statement (so a timed-out test "
+            "cannot leave consumed random state to its successor). The streams are restored to sys.__stdout__/__stderr__ instead of the saved objects: known finding pinned by the "
+            "existing tests. Hidden state inside the module under test is not decided.",
+            "Trusts the CFG builder and python's ast.",
+            "DESIGN.md §3 C30",
+        ),
+    }
+)
+
 NOT_APPLICABLE: dict[str, str] = {
     "C06": "Correctness of the post-dominator/CDG construction on every code object is functional correctness of a graph "
     "algorithm; no shape of the code implies it and no sound static argument in reach bounds 'all code objects'.",
